@@ -9,11 +9,6 @@ Inductive case :=
 | CSeq (C : Circuit) (n : nat) (d q : string) (ign : list string) (afo : bool) (iv : init_vals) (ru : bool) (prefix : string) (obs : obs_t).
 
 Definition norm (o : obs_t) : res (Circuit * iomap) := rmap (λ r, (r.1, list_to_map r.2)) o.
-Definition agree (k : case) : bool :=
-  match k with
-  | CUnroll C n sio p obs => bool_decide (unroll C n sio p = norm obs)
-  | CSeq C n d q ign afo iv ru p obs => bool_decide (sequential_unroll C n d q ign afo iv ru p = norm obs)
-  end.
 
 (* ---------------- specification side ---------------- *)
 Definition lk (m : iomap) (io : string) (t : nat) : string := default "" (m !! io ≫= (.!! t)).
@@ -142,3 +137,16 @@ Definition holds (k : case) : bool :=
         end
       else true
   end.
+
+(* ---------------- correspondence ---------------- *)
+Definition agree (k : case) : bool :=
+  match k with
+  | CUnroll C n sio p obs =>
+      bool_decide (unroll C n sio p = norm obs) &&
+      (* inside the guards the closed form must coincide as well (per-case decision of C09_closed_form_full) *)
+      (if unroll_domain C n sio p && unroll_names_okb (c_g C) n sio p
+       then bool_decide (norm obs = Ok ({| c_name := "circuit"; c_g := unroll_closed (c_g C) n sio p; c_bbs := ∅ |}, unroll_iomap (c_g C) n p))
+       else true)
+  | CSeq C n d q ign afo iv ru p obs => bool_decide (sequential_unroll C n d q ign afo iv ru p = norm obs)
+  end.
+
